@@ -74,8 +74,8 @@ def h_rejected(f, kind):
                 r = s.update(0, [(v, w[v][0]) for v in vs])
             else:
                 s = ct.make_spec({'ct-offline': 'offline', 'ct-online': 'online', 'ct-combined-off': 'combined', 'ct-combined-on': 'combined',
-                                  'ct-online-pastified': 'online', 'ct-combined-pastified': 'combined'}[kind],
-                                 'out = ' + text(f), vs, pastify=kind.endswith('pastified'))
+                                  'ct-online-pastified': 'online', 'ct-combined-pastified': 'combined', 'ct-online-pastified2': 'online', 'ct-combined-pastified2': 'combined'}[kind],
+                                 'out = ' + text(f), vs, pastify=('twice' if kind.endswith('pastified2') else kind.endswith('pastified')))
                 stage = 'evaluate'
                 sigs = {v: ct.signal(env, v, 2, 'zero') for v in vs}
                 args = [[v, [list(p) for p in sigs[v]]] for v in vs]
@@ -290,6 +290,9 @@ def obligations(tier, rng):
             f = wfn(g)
             for kind in ('ct-online-pastified', 'ct-combined-pastified'):
                 out.append(ob('C17', 'rejected', 'reject/%s/%s' % (kind, text(f)), f=f, kind=kind, validate=0))
+            if g[0] in ('until_t', 'unless_t', 'next', 'until'):
+                for kind in ('ct-online-pastified2', 'ct-combined-pastified2'):        # ... and after a second pastify()
+                    out.append(ob('C17', 'rejected', 'reject/%s/%s' % (kind, text(f)), f=f, kind=kind, validate=0))
     dense_online_bad = [('until_t', X, Y, 0, 1), ('until_t', X, Y, 1, 2), ('until', X, Y), ('eventually', X), ('always', X),
                         ('eventually_t', X, 0, 1), ('always_t', X, 0, 1), ('unless_t', X, Y, 0, 1)]
     for g in dense_online_bad:
